@@ -665,7 +665,10 @@ def run(tier):
                 sh = check_level_loop(ck, v, "%s::%s" % (sc, fnm), lev, ("last", 0), ">", ("v", p0, 0), -1, "for(i = last; i > cur_lvl;) { --i; ... }")
                 if sh is not None and sh["step"] is not None:
                     w = sh["step"][2]
-                    late = [e for e in lev if not v.cfg.stmt_dominates(w["i"], e)]
+                    # level objects captured in locals must be captured after the decrement as well
+                    caps = [v.decl_stmt[d] for d, var in v.locals.items() if var.get("init") is not None and d in v.decl_stmt
+                            and any(x.get("k") == "Ref" and x.get("d") == sh["d"] for x in walk(var["init"]))]
+                    late = [e for e in lev + caps if not v.cfg.stmt_dominates(w["i"], e)]
                     if sh["step"][1] != "body" or late:
                         ck.ob("E14.level-range", "%s::%s/decrement-first" % (sc, fnm), False,
                               "the level index is not decremented before the level objects of the iteration are used (line %s)" % (v.byid[late[0]].get("l") if late else w.get("l")), v.fn.file, w.get("l"))
